@@ -48,7 +48,7 @@ PROBES = ["unset_below_non_default_ancestor", "set_on_sibling", "invalid_value_r
           "instance_override_then_unset", "native_anim_max_bytes_shared",
           "render_reveals_lines", "render_reveals_whole", "render_reveals_jpeg",
           "render_reveals_png", "animated_draw_reveals_method", "setting_on_abstract_ancestor",
-          "iterator_rerender_reveals_method"]
+          "iterator_rerender_reveals_method", "file_backed_iterm2_render"]
 COMPONENTS = {
     "real": ["BaseImage.set_render_method (class and instance forms)", "ImageMeta.forced_support",
              "ITerm2ImageMeta + ClassInstanceProperty / ClassProperty descriptors",
@@ -99,6 +99,11 @@ def run(ch, ctx, fault=None):
         # image iterator, a different path to the same render-method decision
         pil_anim = Image.open(io.BytesIO(images.anim_bytes(2, 4, 4)))
         anim_objs = []     # kept alive: identity must not be recycled
+        # a file-backed source: the iterm2 WHOLE method may hand the file over untouched
+        # ("read from file"), a decision that depends on the method used for THAT render
+        file_bytes = images.still_bytes(4, 4, "RGB")
+        file_path = images.write_tmp(file_bytes, ".png")
+        file_objs = []
         # the library's own abstract ancestors are classes "in the ancestry" too: a value set
         # on BaseImage / GraphicsImage / TextImage is what every style below it sees
         n_base = Node(ti_image.BaseImage, None, "abstract", "BaseImage")
@@ -127,13 +132,19 @@ def run(ch, ctx, fault=None):
         for n in nodes:
             for j in range(ch.int("n_inst", 0, 2)):
                 anim = ch.bool("anim_src", 0.3)
+                from_file = not anim and ch.bool("file_src", 0.35)
                 try:
-                    obj = n.cls(pil_anim if anim else pil, width=3, height=2)
+                    if from_file:
+                        obj = n.cls.from_file(file_path, width=3, height=2)
+                    else:
+                        obj = n.cls(pil_anim if anim else pil, width=3, height=2)
                 except Exception as e:
                     raise Violation("instance_construction_failed",
                                     {"class": n.name, "exc": repr(e)}, "init")
                 if anim:
                     anim_objs.append(obj)
+                if from_file:
+                    file_objs.append(obj)
                 n.instances.append((obj, {}))
         ctx.op("tree: " + ", ".join("%s(%d inst)" % (n.name, len(n.instances)) for n in nodes))
         concrete = list(nodes)
@@ -211,7 +222,23 @@ def run(ch, ctx, fault=None):
             ctx.probe("render_reveals_lines" if want == 2 else "render_reveals_whole")
             if override:
                 ctx.probe("per_call_method_override")
-            if n.family == "iterm2" and not via_draw and not animated:
+            from_file = any(o is obj for o in file_objs)
+            reads_file = n.family == "iterm2" and from_file and eff == "whole" \
+                and inst_effective(n, own, "rff")
+            if n.family == "iterm2" and from_file and not via_draw:
+                import base64
+                m_ = re.search(r"\x1b\]1337;File=[^:]*:([A-Za-z0-9+/=]+)", render)
+                payload = base64.b64decode(m_.group(1)) if m_ else b""
+                ctx.probe("file_backed_iterm2_render")
+                # (ANIM on a still image falls back to a WHOLE-style render; whether that
+                # fallback also reads from file is an optimisation detail nobody documents)
+                check(eff == "anim" or (payload == file_bytes) == bool(reads_file),
+                      "read_from_file_decision_differs_from_effective_settings",
+                      {"after": desc, "class": n.name, "method_used": eff, "override": override,
+                       "read_from_file": inst_effective(n, own, "rff"),
+                       "payload_is_the_file": payload == file_bytes}, "render")
+            if n.family == "iterm2" and not via_draw and not animated and not reads_file \
+                    and not (from_file and eff == "anim"):
                 import base64
                 m_ = re.search(r"\x1b\]1337;File=[^:]*:([A-Za-z0-9+/=]+)", render)
                 if m_:
@@ -456,5 +483,10 @@ def run(ch, ctx, fault=None):
             ctx.op(desc)
             key.append(desc)
             read_all(desc)
+        try:
+            import os
+            os.remove(file_path)
+        except OSError:
+            pass
         ctx.key([(n.name, len(n.instances)) for n in nodes], key)
         ctx.log("trace", key)
